@@ -175,6 +175,11 @@ func loadWith(dir string, file map[string]string, env map[string]string) (*confi
 			return nil, err
 		}
 		viper.Set(config.ConfigFilePathKey, p)
+		// the file SELECTED is the file read: files of the same base name in other formats next to it are not its business
+		_ = os.WriteFile(filepath.Join(dir, "cfg.json"), []byte("{}\n"), 0o644)
+		_ = os.WriteFile(filepath.Join(dir, "cfg.toml"), []byte("# empty\n"), 0o644)
+		_ = os.WriteFile(filepath.Join(dir, "cfg.yml"), []byte("{}\n"), 0o644)
+		_ = os.WriteFile(filepath.Join(dir, "cfg"), []byte("{}\n"), 0o644)
 	}
 	cfg, _, err := config.Load(config.GetDefaultAppConfig())
 	return cfg, err
